@@ -354,3 +354,83 @@ func VH_C05_context_branch() {
 	zzverif.Assert(zzverif.EqualBytes(got1, want1), "context-branch: two appending calls on the same Context value whose buffer has spare capacity share bytes (first branch emits the second branch's field)")
 	zzverif.Reach("C05/context-branch")
 }
+
+// L7c: a pooled event with ARBITRARY stale contents (every field dirty) must be
+// indistinguishable from a fresh one for every way of obtaining an event. Differential: the same
+// consumer is run on a clean pool and on a pool poisoned with dirty events; output, hook runs,
+// GetCtx observations and callbacks must be identical.
+type vDirtyHook struct{}
+
+func (vDirtyHook) Run(e *Event, l Level, msg string) { vTouched++; e.Str("DIRTYHOOK", "x") }
+
+func vPoison() {
+	stale := context.WithValue(context.Background(), vKey{1}, "STALE")
+	for i := 0; i < 4; i++ {
+		d := &Event{
+			buf:       append(make([]byte, 0, 500), `{"GARBAGE":1`...),
+			w:         &vWriter{},
+			level:     Level(zzverif.Choice(2) * int(Disabled)), // 0 (debug) or Disabled
+			done:      func(string) { vTouched++ },
+			stack:     true,
+			ch:        []Hook{vDirtyHook{}},
+			skipFrame: 3,
+			ctx:       stale,
+		}
+		eventPool.Put(d)
+	}
+	a := &Array{buf: append(make([]byte, 0, 500), `"GARBAGE"`...)}
+	arrayPool.Put(a)
+}
+
+func vPoolConsumer(k int, w *vWriter, seen *[]interface{}) {
+	obj := vCtxObj{seen}
+	l := New(w)
+	ErrorStackMarshaler = func(err error) interface{} { return "trace" }
+	switch k {
+	case 0:
+		l.Info().Str("a", "b").Msg("m")
+	case 1:
+		l.Info().Dict("d", Dict().Err(errV).Object("o", obj)).Msg("m")
+	case 2:
+		l.Info().Array("a", Arr().Object(obj).Err(vObjErr{}).Dict(Dict().Err(errV))).Msg("m")
+	case 3:
+		l2 := l.With().Object("k", obj).EmbedObject(obj).Dict("d", Dict().Err(errV)).Logger()
+		l2.Info().Msg("m")
+	case 4:
+		l.Info().Fields([]interface{}{"k", obj, "e", error(vObjErr{}), "es", []error{vObjErr{}, errV}}).Msg("m")
+	case 5:
+		l.Info().Errs("es", []error{errV, vObjErr{}}).Err(errV).Msg("m")
+	case 6:
+		l.Log().Func(func(e *Event) { *seen = append(*seen, e.GetCtx().Value(vKey{1})) }).Send()
+	case 7:
+		l.WithLevel(WarnLevel).Caller().Msg("m")
+	}
+}
+
+func VH_C05_L7_dirty_pool() {
+	vSetNames()
+	CallerMarshalFunc = func(pc uintptr, file string, line int) string { return "site" }
+	k := zzverif.Choice(8)
+	// reference run on a clean pool
+	vTouched = 0
+	w1 := &vWriter{}
+	var seen1 []interface{}
+	vPoolConsumer(k, w1, &seen1)
+	t1 := vTouched
+	// same consumer on a poisoned pool
+	vPoison()
+	vTouched = 0
+	w2 := &vWriter{}
+	var seen2 []interface{}
+	vPoolConsumer(k, w2, &seen2)
+	zzverif.Assert(vTouched == t1, "dirty pool: no stale hook or done callback of a pooled event runs for another event")
+	zzverif.Assert(len(w1.calls) == 1 && len(w2.calls) == 1, "dirty pool: the event is written once, to its own writer")
+	zzverif.Observe("clean", w1.calls[0].buf)
+	zzverif.Assert(zzverif.EqualBytes(w1.calls[0].buf, w2.calls[0].buf), "dirty pool: an event built from a pooled object with arbitrary stale contents (buffer, level, stack flag, hooks, skip count, Go context) is byte-identical to one built from a fresh object")
+	zzverif.Assert(w2.calls[0].level == w1.calls[0].level, "dirty pool: level unaffected")
+	zzverif.Assert(len(seen1) == len(seen2), "dirty pool: same marshaler invocations")
+	for i := range seen2 {
+		zzverif.Assert(seen2[i] == nil, "dirty pool: GetCtx never returns a stale Go context")
+	}
+	zzverif.Reach("C05/L7c")
+}
